@@ -733,6 +733,10 @@ class HalmosBitVec:
         assert size == other.size
         assert size == modulus.size
 
+        # mod by zero is zero
+        if modulus.is_concrete and modulus.value == 0:
+            return modulus
+
         if self.is_concrete and other.is_concrete and modulus.is_concrete:
             return HalmosBitVec((self.value + other.value) % modulus.value, size=size)
 
@@ -760,6 +764,10 @@ class HalmosBitVec:
         size = self._size
         assert size == other.size
         assert size == modulus.size
+
+        # mod by zero is zero
+        if modulus.is_concrete and modulus.value == 0:
+            return modulus
 
         if self.is_concrete and other.is_concrete and modulus.is_concrete:
             return HalmosBitVec((self.value * other.value) % modulus.value, size=size)
